@@ -27,6 +27,18 @@ __all__ = [
 ]
 
 
+def _exception_info(
+    exception: BaseException | None,
+    /,
+) -> tuple[type[BaseException], BaseException, TracebackType | None] | None:
+    # logging checks the truth value of exc_info - pass the explicit form instead of an exception,
+    # which is free to define its own truth value (i.e. having length of zero)
+    if exception is None:
+        return None
+
+    return (type(exception), exception, exception.__traceback__)
+
+
 @final
 class ScopeMetrics:
     def __init__(
@@ -215,7 +227,7 @@ class ScopeMetrics:
             level,
             f"{prefix} {message}",
             *args,
-            exc_info=exception,
+            exc_info=_exception_info(exception),
         )
 
 
@@ -303,7 +315,7 @@ class MetricsContext:
                 ERROR,
                 message,
                 *args,
-                exc_info=exception,
+                exc_info=_exception_info(exception),
             )
 
     @classmethod
@@ -327,7 +339,7 @@ class MetricsContext:
                 WARNING,
                 message,
                 *args,
-                exc_info=exception,
+                exc_info=_exception_info(exception),
             )
 
     @classmethod
@@ -372,7 +384,7 @@ class MetricsContext:
                 DEBUG,
                 message,
                 *args,
-                exc_info=exception,
+                exc_info=_exception_info(exception),
             )
 
     def __init__(
